@@ -534,8 +534,16 @@ func (m *Memberlist) UpdateNode(timeout time.Duration) error {
 		Meta:        meta,
 		Vsn:         m.config.BuildVsnArray(),
 	}
-	notifyCh := make(chan struct{})
+	// Buffered so that a completion signalled before we start waiting below
+	// is not lost.
+	notifyCh := make(chan struct{}, 1)
 	m.aliveNode(&a, notifyCh, true)
+
+	// aliveNode ignores alive messages about ourselves once we have left, so
+	// nothing was broadcast and nothing will ever signal notifyCh.
+	if m.hasLeft() {
+		return fmt.Errorf("node has left the cluster, update was not broadcast")
+	}
 
 	// Wait for the broadcast or a timeout
 	if m.anyAlive() {
